@@ -11,9 +11,9 @@ import (
 // Re-exports of the verification hooks of internal/reflect (build tag verif).
 
 func VerifResolve(t reflect.Type) (string, error) { return ireflect.VerifResolve(t) }
-func VerifSpan(reqs [][2]int) [][3]int             { return ireflect.VerifSpan(reqs) }
-func VerifBitset(ops [][2]int) []bool              { return ireflect.VerifBitset(ops) }
-func VerifDescMap(ops [][3]int) []int              { return ireflect.VerifDescMap(ops) }
-func VerifUnknown(b []byte, adds [][2]int) []byte  { return ireflect.VerifUnknown(b, adds) }
-func VerifDispatch() []string                      { return ireflect.VerifDispatch() }
-func VerifParams() map[string]int                  { return ireflect.VerifParams() }
+func VerifSpan(reqs [][2]int) [][3]int            { return ireflect.VerifSpan(reqs) }
+func VerifBitset(ops [][2]int) []bool             { return ireflect.VerifBitset(ops) }
+func VerifDescMap(ops [][3]int) []int             { return ireflect.VerifDescMap(ops) }
+func VerifUnknown(b []byte, adds [][2]int) []byte { return ireflect.VerifUnknown(b, adds) }
+func VerifDispatch() []string                     { return ireflect.VerifDispatch() }
+func VerifParams() map[string]int                 { return ireflect.VerifParams() }
